@@ -32,6 +32,7 @@ func (g *Gen) lvalue(e *Env, x Expr) []leafRef {
 			// layer 1: the value of a heap-form BigInt lives in its math/big object
 			h := g.load(e.old0(), "BigInt._inner", a, SInt)
 			out = append(out, leafRef{"MathBig.val", h, SInt, nil})
+			out = append(out, leafRef{"MathBig.backing", h, SInt, nil})
 		}
 		return out
 	}
